@@ -146,3 +146,11 @@ reg("C15",
     level_note="'Equal to the requested spread' can only hold up to the quadrature of the grid: it is decided in the resolved zone dd <= sigma/2 and sigma <= 50 deg and counted inconclusive outside it (DESIGN.md C15).",
     rule="case = (shape x grid family/size x scalar|DataArray parameters x coordinate container), (spreading: nd x dm placement x parameter kind x resolved|unresolved); distinct = distinct keys",
     must_observe=["shape_hs", "jonswap_gamma1_is_pm", "tma_deep_is_jonswap", "spread_normalised", "spread_is_cos2s", "asymmetric_normalised", "oned_is_shape", "measured_equals_sampled_ideal", "measured_equals_requested"])
+
+reg("C19",
+    technique="runtime offline checker over recorded tracking output histories (uniqueness per step, dense identifiers in order of first appearance, continuity only within recomputed thresholds, no reappearance, site independence); exhaustive short histories + random",
+    level_text="np_track_partitions / track_partitions / ptm1_track are run on every history over a 7-state alphabet for (T,P) in {(2,3),(3,2)} (and (4,2) in the thorough tier) and on random histories (appearing, drifting, crossing, disappearing systems, reshuffled partition slots, seam-crossing directions, swept thresholds, T up to 200, P up to 6); each recorded identifier matrix is checked as a whole history. Held = on the histories observed; the exhaustive part is complete for the stated alphabet and lengths.",
+    level_note="Trusted: vf/oracle/tracking.py (thresholds recomputed from the documented Ewans-Kibblewhite / Snodgrass expressions with scipy's g). The statement requires soundness of continuation, not maximal matching, so a tracker that links less is not flagged. Changes exactly on a threshold are inconclusive.",
+    rule="exhaustive: every history of the alphabet per (T,P); random: (T x P x dt x default|swept thresholds); distinct = distinct keys; every history with >= 1 non-empty partition is non-trivial",
+    must_observe=["history_exhaustive", "history_random", "sites_independent", "ptm1_track", "history_long"],
+    timeout={"quick": 900, "thorough": 14400})
